@@ -948,6 +948,35 @@ fn seq_and_sites(t: &mut T, _a: &Args) {
         let m = [0x1f80u64, 0x9fc0 & 0xffbf, 0x0040 | 0x1f80];
         rwr!(t, "mxcsr", |x| cpu().mxcsr = x as u32, || mxcsr::read().bits() as u64, |x| mxcsr::write(MxCsr::from_bits_truncate(x as u32)), m);
     }
+    // update with a closure that changes nothing is still read-modify-write: the same instructions with the same operands as
+    // read() followed by write() of what was read, and the same register content afterwards (differential, per prior content)
+    macro_rules! upd_id {
+        ($name:literal, $set:expr, $get:expr, $upd:expr, $rmw:expr, $vals:expr) => {{
+            for v in $vals {
+                $set(v);
+                let (_, e1) = stepped(|| $upd);
+                let a = $get();
+                $set(v);
+                let (_, e2) = stepped(|| $rmw);
+                let b = $get();
+                t.r.ev(true);
+                let norm = |v: &[Ev]| -> Vec<Ev> { v.iter().map(|e| if let Ev::Wrmsr(n, val, _, _) = e { Ev::Wrmsr(*n, *val, 0, 0) } else { *e }).collect() };
+                if norm(&e1) != norm(&e2) || a != b {
+                    t.bad($name, "update-with-an-identity-closure-differs-from-read-then-write", &format!("{} update(identity) from {:#x}", $name, v), format!("{:x?} -> {:#x} vs {:x?} -> {:#x}", e1, a, e2, b));
+                }
+            }
+        }};
+    }
+    let pri = [0u64, 0x5000, 0x57e5, 0x0000_000f_ffff_f018, u64::MAX & 0x000f_ffff_ffff_ffff, 0x8005_0033];
+    upd_id!("Cr3::update", |x| cpu().cr[3] = x, || cpu().cr[3], unsafe { Cr3::update(|_, _| {}) }, unsafe { let (f, fl) = Cr3::read(); Cr3::write(f, fl) }, pri);
+    upd_id!("Cr3::update_pcid", |x| cpu().cr[3] = x, || cpu().cr[3], unsafe { Cr3::update_pcid(|_, _| {}) }, unsafe { let (f, p) = Cr3::read_pcid(); Cr3::write_pcid(f, p) }, pri);
+    upd_id!("Cr3::update_pcid_no_flush", |x| cpu().cr[3] = x, || cpu().cr[3], unsafe { Cr3::update_pcid_no_flush(|_, _| {}) }, unsafe { let (f, p) = Cr3::read_pcid(); Cr3::write_pcid_no_flush(f, p) }, pri);
+    upd_id!("Cr0::update", |x| cpu().cr[0] = x, || cpu().cr[0], unsafe { Cr0::update(|_| {}) }, unsafe { let f = Cr0::read(); Cr0::write(f) }, pri);
+    upd_id!("Cr4::update", |x| cpu().cr[4] = x, || cpu().cr[4], unsafe { Cr4::update(|_| {}) }, unsafe { let f = Cr4::read(); Cr4::write(f) }, pri);
+    upd_id!("Efer::update", |x| cpu().msr_set(MSR_EFER, x), || cpu().msr_get(MSR_EFER), unsafe { Efer::update(|_| {}) }, unsafe { let f = Efer::read(); Efer::write(f) }, pri);
+    upd_id!("Dr7::update", |x| cpu().dr[7] = x, || cpu().dr[7], Dr7::update(|_| {}), { let f = Dr7::read(); Dr7::write(f) }, pri);
+    upd_id!("SFMask::update", |x| cpu().msr_set(MSR_SFMASK, x), || cpu().msr_get(MSR_SFMASK), SFMask::update(|_| {}), { let f = SFMask::read(); SFMask::write(f) }, [0u64, 0x200, 0x4_7fd5]);
+    upd_id!("mxcsr::update", |x| cpu().mxcsr = x as u32, || cpu().mxcsr as u64, mxcsr::update(|_| {}), { let f = mxcsr::read(); mxcsr::write(f) }, [0x1f80u64, 0x9fc0 & 0xffbf, 0]);
     let sites: &[(&str, fn(u64, u64, u64) -> u64)] = &[
         ("CS::set_reg", ks_cs), ("SS::set_reg", ks_ss), ("DS::set_reg", ks_ds), ("ES::set_reg", ks_es), ("FS::set_reg", ks_fs), ("GS::set_reg", ks_gs), ("load_tss", ks_tss),
         ("FS::write_base", ks_fsb), ("GS::write_base", ks_gsb), ("Cr0::write_raw", ks_cr0), ("Cr4::write_raw", ks_cr4), ("Dr7::write_raw", ks_dr7), ("Dr0::write", ks_dr0),
